@@ -266,6 +266,13 @@ theorem cst_lexM_modulo : (c : Cst) → c.lexM.filter keep = (c.lex.map normLex)
     simp only [Cst.lexM, Cst.lex, List.map_cons, List.map_append, List.filter_cons, List.filter_append,
       cst_lexM_modulo h, cst_lexM_modulo b, map_normLex_lexGC]
     simp [normLex, keep, isBindDelim]
+  | .sel e c1 _ _ attrs => by
+    have hat : ∀ (as : List Text), (attrLex as).map normLex = attrLex as := by
+      intro as
+      induction as with
+      | nil => rfl
+      | cons a r ih => simp [attrLex, normLex, ih]
+    simp only [Cst.lexM, Cst.lex, List.map_append, List.filter_append, cst_lexM_modulo e, map_normLex_lexGC, hat]
 theorem items_lexM_modulo : (its : Items) → its.lexM.filter keep = (its.lex.map normLex).filter keep
   | .nil => rfl
   | .cmt _ t rest => by
